@@ -31,7 +31,7 @@ def setup(c):
 def cases(c):
     rng = c.rng('cases')
     out = []
-    n = 14 if c.tier == 'quick' else 500
+    n = 120 if c.tier == 'quick' else 800
     for cls in E.CLASSES:
         for j in range(n):
             N = int(rng.integers(16, 72))
